@@ -219,6 +219,49 @@ def run_case(case):
     return out
 
 
+def locale_case(case):
+    """a well-formed summary with non-ASCII free text (remarks in French / Japanese), opened by fresh interpreters whose preferred locale encoding
+    is UTF-8 and plain C (ASCII): the file is UTF-8 whatever the reader's locale is -- same tree"""
+    import subprocess
+    import sys
+    import tempfile
+
+    from checks import C08 as codec
+    from harness import imgrun, product, project
+
+    b = product.build_product(level=case["level"], images=(("HH", None, 2, 2),), seed=case["seed"],
+                              summary_extra=['Odi_Remarks="donn\u00e9es re\u00e7ues \u2014 \u30c7\u30fc\u30bf\u53d7\u9818\u6e08\u307f"', 'Scs_Note="\u00b5s / \u03c3\u2070"'])
+    if case["crlf"]:
+        b.files["summary.txt"] = b.files["summary.txt"].replace(b"\n", b"\r\n")
+    url = imgrun.put_on_fs(b, "local", f"c14loc_{case['seed']}")
+    d = tempfile.mkdtemp(dir=checklib.worker_dir())
+    out = {"case": case, "bad": []}
+    fps = {}
+    try:
+        for loc in ("utf8", "C"):
+            o = os.path.join(d, f"{loc}.json")
+            env = {k: v for k, v in checklib.worker_env(os.path.join(d, "xdg")).items() if k not in ("LC_ALL", "LC_CTYPE", "LANG", "LANGUAGE", "PYTHONUTF8", "PYTHONCOERCECLOCALE", "PYTHONIOENCODING")}
+            env.update(codec.LOCALES[loc])
+            txt, _ = checklib.run_child([sys.executable, "-W", "ignore", "-c", codec.TRANSPORT_CHILD, "reference", url, o], env, timeout=600)
+            if not os.path.exists(o):
+                raise checklib.Machinery(f"locale child {loc} died: {txt[-500:]}")
+            r = json.load(open(o))
+            if r[0] != "ok":
+                out["bad"].append((f"wellformed-rejected:locale-{loc}", f"a well-formed UTF-8 summary with non-ASCII remarks, reader's locale encoding {loc}: {r[1]}"))
+            else:
+                fps[loc] = r[1]
+        if len(fps) == 2:
+            dd = project.diff(fps["utf8"], fps["C"])
+            if dd:
+                out["bad"].append(("locale-dependent", f"the tree depends on the reader's locale encoding: {dd[:2]}"))
+            rem = str(fps["utf8"].get("/summary/ordering_information", {}).get("attrs", {}).get("Remarks"))
+            if "\u30c7" not in rem and "\\u30c7" not in rem:
+                out["bad"].append(("nonascii-garbled", f"Odi_Remarks reads back as {rem[:80]!r}"))
+    finally:
+        imgrun.drop_from_fs(url, "local")
+    return out
+
+
 def body(chk):
     from checks import _layoutcommon as lc
     from harness import tlc
@@ -259,6 +302,10 @@ def body(chk):
                 continue
             seen.add(key)
             chk.violation(f"summary:{key}" + (f":{c['shuffle']}" if key.startswith(("file-role", "imagery-order")) else ""), msg, {"case": c, "first_lines": res["text"]})
+    for res in checklib.pmap(locale_case, [dict(level=("1.5", "1.1")[i % 2], crlf=bool(i % 2), seed=chk.seed + 9500 + i) for i in range(2)], chk.scratch):
+        chk.count(2, f"locale:{res['case']['level']}")
+        for key, msg in res["bad"]:
+            chk.violation(f"summary:{key}", msg, {"case": res["case"]})
     chk.traces(len(results))
     chk.sample({"first_lines": results[0]["text"], "order": results[0]["case"]["shuffle"], "crlf": results[0]["case"]["crlf"]})
     chk.sample({"corrupted": results[n_ok]["case"]["n_bad"], "kinds": results[n_ok]["case"]["kinds"][:3], "first_lines": results[n_ok]["text"]})
